@@ -257,12 +257,7 @@ class Concat(Expr):
                 if len(cols) > 0
             ]
             result = type(self)(
-                self.join,
-                self.ignore_order,
-                self._kwargs,
-                self.axis,
-                self.ignore_unknown_divisions,
-                self.interleave_partitions,
+                *[self.operand(param) for param in self._parameters],
                 *frames,
             )
             if result.columns == _convert_to_list(parent.operand("columns")):
